@@ -41,6 +41,16 @@ theorem time_delta_roundtrip {t : Int} (b : Int) (h : I64 t) :
   unfold I64 at h2
   rcases h1 (t - b) with e1 | e1 <;> rcases h1 (b + wrap64 (t - b)) with e2 | e2 <;> omega
 
+/-- `uint64(b + (int64(ref) - b)) = ref` (the form `Encoder/Decoder.samplesV1` uses). -/
+theorem ref_delta_roundtrip_i {r : Nat} (b : Int) (h : U64 r) :
+    toU64 (b + wrap64 (toI64 r - b)) = r := by
+  unfold U64 at h; unfold wrap64 toI64 toU64; simp only; split <;> split <;> omega
+
+/-- `base + uint64(int64(ref) - int64(base)) = ref` in `uint64` arithmetic (exemplars, histograms V1). -/
+theorem ref_delta_roundtrip_u {r base : Nat} (h : U64 r) (hb : U64 base) :
+    (base + toU64 (wrap64 (toI64 r - toI64 base))) % 18446744073709551616 = r := by
+  unfold U64 at h hb; unfold wrap64 toI64 toU64; simp only; split <;> split <;> split <;> omega
+
 theorem wrap32_id {x : Int} (h : I32 x) : wrap32 x = x := by
   unfold I32 at h; unfold wrap32; simp only; split <;> omega
 
@@ -168,7 +178,7 @@ theorem loopFuel_encAll {σ α β} (step : σ → Bytes → Except DecErr (σ ×
     (Inv : σ → Prop) (WF : α → Prop)
     (hstep : ∀ s x rest, Inv s → WF x → step s (enc s x ++ rest) = .ok (next s x, out s x, rest))
     (hinv : ∀ s x, Inv s → WF x → Inv (next s x))
-    (hne : ∀ s x, enc s x ≠ []) :
+    (hne : ∀ s x, Inv s → WF x → enc s x ≠ []) :
     ∀ (xs : List α) (s : σ) (fuel : Nat), Inv s → (∀ x ∈ xs, WF x) →
       (encAll enc next s xs).length ≤ fuel →
       loopFuel step fuel s (encAll enc next s xs) = .ok (outAll out next s xs) := by
@@ -179,7 +189,7 @@ theorem loopFuel_encAll {σ α β} (step : σ → Bytes → Except DecErr (σ ×
     intro s fuel hs hwf hfuel
     have hx := hwf x (by simp)
     simp only [encAll, outAll] at hfuel ⊢
-    have hne' := hne s x
+    have hne' := hne s x hs hx
     -- expose the head byte and the fuel successor
     cases hE : enc s x with
     | nil => exact absurd hE hne'
